@@ -298,30 +298,31 @@ func (w *World) EIP712Tx(ctx sdk.Context, s EIP712Spec) ([]byte, error) {
 // MutateTx decodes raw tx bytes into body / auth info / signatures, lets f edit them, and
 // re-encodes (signatures are NOT recomputed: this is how post-signing mutations are produced).
 func MutateTx(bz []byte, f func(body *txtypes.TxBody, auth *txtypes.AuthInfo, sigs *[][]byte)) ([]byte, error) {
+	// plain protobuf (no interface unpacking): unknown Any types must survive the round trip
 	var raw txtypes.TxRaw
-	if err := encCfg.Codec.Unmarshal(bz, &raw); err != nil {
+	if err := raw.Unmarshal(bz); err != nil {
 		return nil, err
 	}
 	var body txtypes.TxBody
 	var auth txtypes.AuthInfo
-	if err := encCfg.Codec.Unmarshal(raw.BodyBytes, &body); err != nil {
+	if err := body.Unmarshal(raw.BodyBytes); err != nil {
 		return nil, err
 	}
-	if err := encCfg.Codec.Unmarshal(raw.AuthInfoBytes, &auth); err != nil {
+	if err := auth.Unmarshal(raw.AuthInfoBytes); err != nil {
 		return nil, err
 	}
 	sigs := raw.Signatures
 	f(&body, &auth, &sigs)
-	bb, err := encCfg.Codec.Marshal(&body)
+	bb, err := body.Marshal()
 	if err != nil {
 		return nil, err
 	}
-	ab, err := encCfg.Codec.Marshal(&auth)
+	ab, err := auth.Marshal()
 	if err != nil {
 		return nil, err
 	}
 	out := txtypes.TxRaw{BodyBytes: bb, AuthInfoBytes: ab, Signatures: sigs}
-	return encCfg.Codec.Marshal(&out)
+	return out.Marshal()
 }
 
 // Deliver runs the real DeliverTx on the current (possibly branched) deliver state.
@@ -378,6 +379,15 @@ func (w *World) CosmosTxEIP712Sig(ctx sdk.Context, s CosmosSpec) ([]byte, error)
 	}
 	sig.Data = &signing.SingleSignatureData{SignMode: mode, Signature: sigBz}
 	if err := b.SetSignatures(sig); err != nil {
+		return nil, err
+	}
+	return encCfg.TxConfig.TxEncoder()(b.GetTx())
+}
+
+// UnsignedTx builds a Cosmos envelope without signatures or signer infos.
+func (w *World) UnsignedTx(s CosmosSpec) ([]byte, error) {
+	b, err := w.cosmosBuilder(s)
+	if err != nil {
 		return nil, err
 	}
 	return encCfg.TxConfig.TxEncoder()(b.GetTx())
